@@ -514,7 +514,7 @@ def runner_loop(lib, cases, start, wfd, alone=False, dump_file=None, logbase=Non
             if size > logpos:
                 with open(logpath, errors="replace") as lf:
                     lf.seek(logpos)
-                    res["asan"] = lf.read(9000)
+                    res["asan"] = lf.read(40000)
                 logpos = size
         w.write(b"R %d %s\n" % (i, json.dumps(res, separators=(",", ":")).encode()))
     w.close()
@@ -546,7 +546,8 @@ class Server:
         self.impl, self.cases, self.logbase = impl, cases, logbase
         self.lib = _Lib(impl, ext_dir)
         self.results = {}
-        self.stats = {"forks": 0, "silent_kills": 0, "rss_kills": 0, "alone_runs": 0, "unattributed_deaths": 0}
+        self.stats = {"forks": 0, "silent_kills": 0, "rss_kills": 0, "alone_runs": 0, "unattributed_deaths": 0,
+                      "report_storms": 0}
         self.problems = []
 
     def spawn(self, start, alone=False, dump_file=None):
@@ -565,14 +566,26 @@ class Server:
         self.stats["forks"] += 1
         return pid, r
 
+    def _logsize(self, pid):
+        try:
+            return os.stat(f"{self.logbase}.{pid}").st_size
+        except OSError:
+            return 0
+
     def monitor(self, pid, rfd, silent_limit):
-        """-> (status, started_unfinished_index or None, reason) where reason in exit|silent|rss."""
+        """-> (status, started_unfinished_index or None, reason); reason in exit|silent|rss|storm.
+
+        storm: in recover mode a bad access inside a loop is reported on every iteration (each report is
+        slow), which would look like a hang; when the ASan log grows by > 64 KiB within one case the
+        runner is killed and the FIRST report of that case is the outcome."""
         buf = b""
         started = None
         last = time.monotonic()
         reason = "exit"
+        self.storm_text = ""
+        log_base = self._logsize(pid)
         while True:
-            ready, _, _ = select.select([rfd], [], [], 0.5)
+            ready, _, _ = select.select([rfd], [], [], 0.2)
             now = time.monotonic()
             if ready:
                 chunk = os.read(rfd, 1 << 16)
@@ -588,7 +601,18 @@ class Server:
                         _r, idx, payload = ln.split(b" ", 2)
                         self.results[int(idx)] = json.loads(payload)
                         started = None
+                if lines:
+                    log_base = self._logsize(pid)
                 continue
+            if self.impl == "C" and started is not None and self._logsize(pid) - log_base > 65536:
+                reason = "storm"
+                try:
+                    with open(f"{self.logbase}.{pid}", errors="replace") as f:
+                        f.seek(log_base)
+                        self.storm_text = f.read(60000)
+                except OSError:
+                    pass
+                break
             if now - last > silent_limit:
                 reason = "silent"
                 break
@@ -597,7 +621,7 @@ class Server:
                 break
         status = None
         if reason != "exit":
-            if self.impl == "C" and silent_limit >= ALONE_LIMIT - 1:
+            if self.impl == "C" and silent_limit >= ALONE_LIMIT - 1 and reason != "storm":
                 os.kill(pid, signal.SIGABRT)           # ASan (handle_abort=1) prints the native stack
                 for _ in range(100):
                     p, status = os.waitpid(pid, os.WNOHANG)
@@ -636,6 +660,9 @@ class Server:
             return
         if reason == "exit":
             self.results[idx] = self.death(status, log)
+            return
+        if reason == "storm":
+            self.results[idx] = {"died": "storm", "asan": self.storm_text}
             return
         self.results[idx] = {"hang": reason, "asan": log[:6000], "pystack": pystack,
                              "after_s": round(time.monotonic() - t0, 1)}
@@ -676,6 +703,9 @@ class Server:
             barren = 0
             if reason == "exit":
                 self.results[started] = self.death(status, log)
+            elif reason == "storm":
+                self.stats["report_storms"] += 1
+                self.results[started] = {"died": "storm", "asan": self.storm_text}
             else:
                 self.stats["silent_kills" if reason == "silent" else "rss_kills"] += 1
                 self.run_alone(started)
@@ -779,6 +809,19 @@ def parse_asan(text, ext_dir):
             names.append(demangle(sym, module))
     outer = [os.path.basename(so) for so, off, e in frames if not e]
     return dict(kind=kind, access=access, frames=names, other=outer[:4], via=via)
+
+
+def parse_asan_all(text, ext_dir, limit=12):
+    """Every report block of ``text`` (recover mode can attach several to one case)."""
+    out = []
+    starts = [m.start() for m in re.finditer(r"==\d+==ERROR: AddressSanitizer", text)]
+    for a, b in zip(starts, starts[1:] + [len(text)]):
+        info = parse_asan(text[a:b], ext_dir)
+        if info is not None:
+            out.append(info)
+        if len(out) >= limit:
+            break
+    return out
 
 
 def asan_mechanism(info, prefix="asan"):
@@ -924,18 +967,28 @@ def judge(sh: Shard, case: Case, impl, res, ext_dir):
     oc = outcome_class(res)
     sh.count(f"outcome:{impl}:{oc}")
     ent = f"{case.entry}"
-    if res.get("asan") and "died" not in res and "hang" not in res:
-        info = parse_asan(res["asan"], ext_dir)
-        if info is not None:
+    if res.get("asan") and "hang" not in res:
+        seen = set()
+        for info in parse_asan_all(res["asan"], ext_dir):
+            if info["kind"] == "ABRT":
+                continue
             mech = asan_mechanism(info)
             if mech is None:
                 sh.count("asan_report_without_extension_frame")
                 sh.note("asan_reports_outside_extension", f"{info['kind']} in {info['other'][:2]}")
-            else:
-                sh.count(f"asan_reports:{impl}")
-                sh.violation(mech, f"AddressSanitizer {info['kind']} ({info['access']}) in "
-                             f"{' <- '.join(info['frames'][:4])}" + (f" via {info['via']}" if info.get("via") else "")
-                             + f"; entry {ent}; the decoder then went on to: {oc}", case, impl, _short_outcome(res))
+                continue
+            if mech in seen:
+                continue
+            seen.add(mech)
+            sh.count(f"asan_reports:{impl}")
+            fate = {"storm": "the bad access repeats in a loop (runner stopped after 64 KiB of reports)",
+                    "signal": f"process died by signal {res.get('sig')}",
+                    "exit": "process terminated by the sanitizer"}.get(res.get("died"), f"the decoder then went on to: {oc}")
+            sh.violation(mech, f"AddressSanitizer {info['kind']} ({info['access']}) in "
+                         f"{' <- '.join(info['frames'][:4])}" + (f" via {info['via']}" if info.get("via") else "")
+                         + f"; entry {ent}; {fate}", case, impl, _short_outcome(res))
+        if seen and ("died" in res):
+            return
     if "exc" in res:
         if res["exc"] in ("SystemError", "MemoryError"):
             mech = exc_mechanism(res, impl)
@@ -1009,10 +1062,17 @@ def run_shard(params):
         if params.get("only") is not None:
             cases = [c for c in cases if (c.entry, c.crc, c.flavor, c.buf.hex()) == tuple(params["only"][:4])] or cases[:0]
         wire = [c.wire() for c in cases]
+        t_phase = time.time()
+
+        def timed(impl):
+            t0 = time.time()
+            r = run_server(impl, ext_dir, wire, workdir, params.get("server_timeout", 3000))
+            sh.count(f"wall_ms:server:{impl}", int((time.time() - t0) * 1000))
+            return r
         with ThreadPoolExecutor(2) as ex:
-            futs = {impl: ex.submit(run_server, impl, ext_dir, wire, workdir, params.get("server_timeout", 3000))
-                    for impl in ("C", "Py")}
+            futs = {impl: ex.submit(timed, impl) for impl in ("C", "Py")}
             out = {impl: f.result() for impl, f in futs.items()}
+        t_judge = time.time()
         res = {}
         for impl, (data, err) in out.items():
             if err:
@@ -1050,6 +1110,7 @@ def run_shard(params):
                 sh.samples.append(dict(family=case.family, recipe=case.recipe, mutation=case.note, entry=case.entry,
                                        check_crcs=bool(case.crc), flavor=case.flavor, input_hex=case.buf[:120].hex(),
                                        outcome_C=_short_outcome(rc), outcome_Py=_short_outcome(rp)))
+        sh.count("wall_ms:judge", int((time.time() - t_judge) * 1000))
     finally:
         shutil.rmtree(workdir, ignore_errors=True)
         if own_tmp:
